@@ -49,7 +49,7 @@ struct Life {
    std::map<const void*, std::string> tags;          // how each address was obtained (first route)
    void addr(const void* p, const std::string& how) { addrs.push_back(p); tags.emplace(p, how); }
    std::vector<std::pair<std::uint32_t, int>> ticks;     // (ticket, threads inside at that moment)
-   long long api_batches = 0, shadow_fails = 0, printed = 0, mirror_requests = 0, first_words_oversize = 0;
+   long long api_batches = 0, shadow_fails = 0, printed = 0, mirror_requests = 0, first_words_oversize = 0, names_outside_the_basis_asked = 0;
    std::vector<std::string> mirror_fails;
 };
 
@@ -195,6 +195,30 @@ void run_life(const LifeSpec& spec, Life& L)
       for (int k = 0; k < 3; ++k) { w.assign(65537 + std::size_t(k) * 4001, char('A' + k)); auto& s = lex.get_string(widen(w)); L.addr(&s, "oversize string"); auto& id = lex.get_identifier(widen(w)); L.addr(&id, "identifier with an oversize spelling"); tr << s.characters().size() << (&id.string() == &s) << ","; T.tick(); }
       tr << "\n";
    }
+   // (d'') the mapping between names and specifier / qualifier sets, asked with names inside and OUTSIDE the basis (a vendor's
+   //      qualifier, a misspelling: refused) and with sets that carry coordinates outside the basis; the same questions on every
+   //      thread, the answers (value, or "refused") part of the trace: they depend on the question alone, never on which Lexicon
+   //      or thread asked first
+   {
+      auto ask = [&](const char8_t* w, bool qual) {
+         try {
+            auto& lg = lex.get_logogram(lex.get_string(w));
+            if (qual) tr << std::uintptr_t(util::rep(CL.qualifiers(Basic_qualifier { lg }))) << ","; else tr << std::uintptr_t(util::rep(CL.specifiers(Basic_specifier { lg }))) << ",";
+         } catch (...) { tr << "refused,"; }       // the refusal is an object of a library-private type
+      };
+      const char8_t* words[] = { u8"const", u8"_Atomic", u8"volatile", u8"__unaligned", u8"restrict", u8"__ptr32", u8"static", u8"__declspec", u8"=0", u8"constexpr", u8"Const", u8"" };
+      for (int rep = 0; rep < 2; ++rep) for (auto w : words) { ask(w, true); ask(w, false); if (rep == 0) T.tick(); }
+      std::string vendor = "__vendor_q" + std::to_string(spec.kind % 3);      // not the same on every thread
+      ask(widen(vendor).data(), true); ask(widen(vendor).data(), false);
+      for (int b = 0; b < 64; b += 3) {
+         try { for (auto& q : CL.decompose(Qualifiers((std::uintptr_t(1) << b) | 5))) tr << narrow(q.logogram().what().characters()) << " "; } catch (...) { tr << "raised "; }
+         try { for (auto& q : CL.decompose(Specifiers((std::uintptr_t(1) << b) | 0x21))) tr << narrow(q.logogram().what().characters()) << " "; } catch (...) { tr << "raised "; }
+         tr << ";";
+      }
+      tr << "\n";
+      L.names_outside_the_basis_asked += 2 * 12 + 2;
+      T.tick();
+   }
    // (e) a nest of blocks deeper than anything printed in this process before: whatever the printer keeps per process
    //     (and grows on demand) is exercised by several threads at once
    if (spec.nest > 0) {
@@ -322,7 +346,7 @@ static void body(Ctx& C)
          const auto& want = ref[std::size_t(assign[std::size_t(t)])];
          C.count("lives_on_threads"); C.count("api_batches", L.api_batches); C.count("printed_bytes", L.printed);
          C.eval(hash_mix(hash_mix(specs[std::size_t(assign[std::size_t(t)])].seed, std::uint64_t(T)), std::uint64_t(t)));
-         C.count("mirror_requests", L.mirror_requests); C.count("lives_whose_first_word_is_oversize", L.first_words_oversize);
+         C.count("mirror_requests", L.mirror_requests); C.count("lives_whose_first_word_is_oversize", L.first_words_oversize); C.count("specifier_and_qualifier_names_asked_concurrently", L.names_outside_the_basis_asked);
          for (auto& mf : L.mirror_fails) C.viol("successor-lexicon-not-alone:" + mf.substr(0, mf.find(':', 11)), "a Lexicon built where an earlier Lexicon of the same thread had lived did not behave as if alone: " + mf);
          if (L.shadow_fails) C.viol("shadow-fails-under-concurrency", "a factory-built node did not report its operands while other Lexicons were in use on other threads");
          if (L.trace != want) {
@@ -370,7 +394,7 @@ static void body(Ctx& C)
    }
    C.count("shared_addresses_checked", sharing_checked); C.count("shared_addresses_that_are_constants", shared_constants);
    C.count("api_ticks", total_ticks); C.count("api_ticks_with_two_or_more_threads_inside", overlap_ticks); C.count("thread_alternations_in_ticket_order", alternations);
-   for (auto k : { "rounds", "lives_on_threads", "api_batches", "printed_bytes", "shared_addresses_checked", "rounds_with_sharing_check", "rounds_destroying_while_others_construct", "trace_bytes_compared", "rounds_reference_before_threads", "rounds_threads_before_reference", "mirror_requests", "lives_whose_first_word_is_oversize" }) C.need(k);
+   for (auto k : { "rounds", "lives_on_threads", "api_batches", "printed_bytes", "shared_addresses_checked", "rounds_with_sharing_check", "rounds_destroying_while_others_construct", "trace_bytes_compared", "rounds_reference_before_threads", "rounds_threads_before_reference", "mirror_requests", "lives_whose_first_word_is_oversize", "specifier_and_qualifier_names_asked_concurrently" }) C.need(k);
    C.need("api_ticks_with_two_or_more_threads_inside", 100); C.need("thread_alternations_in_ticket_order", 100);
 }
 
